@@ -28,7 +28,7 @@ def r4_output_store(ctx):
     value = des_output(payload bytes, _, the payload's own decoder)."""
     repo = ctx.repo
     n = 0
-    for fi, node, kind, det in scan().attr_sites("outputs", ("cascade.controller", "cascade.scheduler")):
+    for fi, node, kind, det in scan().attr_sites("outputs", ("cascade.controller", "cascade.scheduler"), owner="cascade.scheduler.core.State"):
         if kind in ("substore", "submutcall", "mutcall", "store", "aug", "subdel", "del"):
             n += 1
             from .common import helper_of as _helper_of
@@ -201,3 +201,8 @@ from .sched import r_no_downgrade, r_transfer_source  # noqa: E402
 
 RULES = [r_no_downgrade, r_transfer_source, r7_available_writers, r8_events_returned, r_predicates, r2_fetch_on_publication, r3_r4_flush, r4_output_store, r5_commands, r3_binding, r4_r6_outputs, r7_memory, r9_memory_lifecycle,
          r5_act, r8_publication_fanout]
+
+from .common import lazy  # noqa: E402
+RULES.append(lazy("sched", "r_assignment_outputs", "completion of a task is inferred from the publication of its last output: every output must be published"))
+RULES.append(lazy("C03", "r6_loop_wiring", "every requested output is known to the scheduler and every event reaches notify"))
+RULES.append(lazy("C02", "r6_worker_deferral", "a task sequence whose inputs have all arrived is run (else its outputs never exist and the run never returns)"))
